@@ -45,7 +45,12 @@ def main(argv=None):
         from .ctx import Ctx
         ctx = Ctx(args.repo)
         rep = core.Report(pid, args.tier, args.repo)
-        mod.run(ctx, rep)
+        try:
+            mod.run(ctx, rep)
+        except core.AnalysisError as e:
+            # rules already decided stand: a violation found before the analysis stopped is reported (finish() turns an
+            # incomplete analysis without violations into ANALYSIS-ERROR, exit 2)
+            rep.floor_fail.append(f'analysis stopped early: {e}')
         if 'pytableaux' in sys.modules:
             raise core.AnalysisError('pytableaux was imported during a static check')
         if replay_keys is not None:
